@@ -9,7 +9,7 @@ def clip(t, n):
 
 res = json.load(open(os.path.join(V, "seeded", "RESULTS.json")))
 L = ["# Independently seeded changes: what each needs and which check signature caught it", "",
-     "Each change was written by a fresh sub-agent that saw only the property text and a scratch worktree. `m1-m3`: first round (one-site slips); `m4-m6`: second round (m4 two cooperating edits, m5 state carried between calls, m6 confined to a rare input class). Confirmed here: demo passes on the clean tree, fails with the patch, pinned baseline 307/307 with the patch.", "",
+     "Each change was written by a fresh sub-agent that saw only the property text and a scratch worktree. `m1-m3`: round 1 (one-site slips); `m4-m6`: round 2 (two cooperating edits, state carried between calls, rare input class); `m7-m9`: round 3 (numerically subtle, one of several argument forms, ordering/identity); `m10-m12`: round 4 (clean-up regression, defect in a helper, size/magnitude dependent); `m13-m15`: round 5 (clause-targeted). Confirmed here: demo passes on the clean tree, fails with the patch, pinned baseline 307/307 with the patch.", "",
      "| Change | Summary | Needs to manifest | Result (quick tier) | First signature |", "|---|---|---|---|---|"]
 for name in sorted(res):
     mp = os.path.join(V, "seeded", name, "meta.json")
@@ -31,4 +31,15 @@ if os.path.exists(mf):
     n_det = sum(1 for r in res.values() if r["status"] == "detected")
     L += ["", f"{n_det} of {len(res)} detected."]
     open(os.path.join(V, "mutants", "RESULTS.md"), "w").write("\n".join(L) + "\n")
+bf = os.path.join(V, "benign", "RESULTS.json")
+if os.path.exists(bf):
+    res = json.load(open(bf))
+    L = ["# Benign variants (property-preserving refactorings written by sub-agents): the check has to stay quiet", "",
+         "| Variant | Summary | Observable difference | Result (quick tier) |", "|---|---|---|---|"]
+    for name in sorted(res):
+        mp = os.path.join(V, "benign", name, "meta.json")
+        meta = json.load(open(mp)) if os.path.exists(mp) else {}
+        L.append(f"| {name} | {clip(meta.get('summary'), 240)} | {clip(meta.get('observable_difference'), 220)} | {res[name]['status']} |")
+    L += ["", f"{sum(1 for r in res.values() if r['status'] == 'quiet')} of {len(res)} quiet."]
+    open(os.path.join(V, "benign", "RESULTS.md"), "w").write("\n".join(L) + "\n")
 print("written")
